@@ -47,7 +47,7 @@ structure State where
 inductive Label where
   | register (id : MsgId) (c : CallId) (streaming : Bool)   -- enqueue, first half (ids are fresh: manager counter)
   | handoff (id : MsgId)                                     -- enqueue, second half: `c.sendQ <- req`
-  | closedAnswer (id : MsgId)                                -- enqueue on a closed channel: routeResponse(err)
+  | closedAnswer (id : MsgId)                                -- enqueue on a closed channel, or the caller's context ended while waiting for the sender: routeResponse(err)
   | pop                                                      -- sender: `req = <-c.sendQ`
   | sendOk (confirm : Bool)                                  -- SendMsg succeeded (confirm: a send-waiting one-way request)
   | sendFail (kind : Nat) (confirm : Bool)                   -- stream broken / SendMsg failed / context already ended
